@@ -66,7 +66,7 @@ theorem upto_sublist (p : Node) (L : List Node) : (upto p L).Sublist L := by
     simp only [upto]
     split
     · simp
-    · exact ih.cons₂ _
+    · exact ih.cons_cons _
 
 theorem not_mem_aft_self (hn : L.Nodup) : p ∉ aft p L := by
   induction L with
@@ -246,8 +246,8 @@ theorem sublist_insAfter (p n : Node) (L : List Node) : L.Sublist (insAfter p n 
   | cons y ys ih =>
     simp only [insAfter]
     split
-    · exact ((List.sublist_cons_self n ys)).cons₂ y
-    · exact ih.cons₂ y
+    · exact ((List.sublist_cons_self n ys)).cons_cons y
+    · exact ih.cons_cons y
 
 theorem mem_insAfter_of_mem (h : x ∈ L) : x ∈ insAfter p n L := (sublist_insAfter p n L).subset h
 
@@ -406,12 +406,12 @@ theorem upto_sublist_insAfter (hqn : q ≠ n) : (upto q L).Sublist (upto q (insA
       by_cases hyq : y = q
       · simp [hyq]
       · simp only [hyq, ite_false, Ne.symm hqn]
-        exact ((List.sublist_cons_self n _)).cons₂ y
+        exact ((List.sublist_cons_self n _)).cons_cons y
     · simp only [upto]
       by_cases hyq : y = q
       · simp [hyq]
       · simp only [hyq, ite_false]
-        exact ih.cons₂ y
+        exact ih.cons_cons y
 
 /-! ### sortedness -/
 
